@@ -724,7 +724,7 @@ Proof.
   apply quiet_bind; [apply quiet_att_bump|]. intros n.
   apply quiet_bind; [apply quiet_get_w|]. intros w.
   apply quiet_bind; [apply quiet_emit; reflexivity|]. intros _.
-  destruct (Nat.ltb n k); [apply quiet_fail|apply quiet_ret].
+  destruct (Nat.ltb n (hook_fails k)); [apply quiet_fail|apply quiet_ret].
 Qed.
 
 Lemma synced_self (w : world) (run : N) (r : record) : lookup_run w run = Some r -> synced w r.
